@@ -34,7 +34,7 @@ FxAdd(a, b) == Fx(ZAdd(a.v, b.v), a.e + b.e)
 FxSub(a, b) == Fx(ZSub(a.v, b.v), a.e + b.e)
 FxNeg(a) == Fx(ZNeg(a.v), a.e)
 FxMulInt(a, k) == Fx(ZMulSmall(a.v, k), a.e * IAbs(k))                 \* k native
-FxShr(a, s) == Fx(ZShr(a.v, s), (a.e \div Pow2I(s)) + 1)                \* divide by 2^s
+FxShr(a, s) == Fx(ZShr(a.v, s), (IF s >= 30 THEN 0 ELSE a.e \div Pow2I(s)) + 1)     \* divide by 2^s  (a.e < 2^30)
 \* upper bound, as a native int, of |v| * e / 2^w  (e native and small)
 ErrScale(v, e, w) == IF e = 0 THEN 0 ELSE ZToInt(ZShr(ZMulSmall(ZAbs(v), e), w)) + 1
 FxMul(a, b, w) ==
@@ -82,15 +82,23 @@ ExpSmall(r, w) ==
       base == Fx(st[1].v, st[1].e + 2 * (ZToInt(ZShr(ZAbs(st[2].v), 0)) + st[2].e) + 2)       \* tail <= 2 * last term (which is ~0)
   IN FoldLeft(LAMBDA y, i : FxMul(y, y, w), base, IRange(1, s))
 \* enclosure of exp(x) for a dyadic x: [lo, hi] * 2^sh
-ExpEncl(x, w) ==
-  LET g == (IF DyIsZero(x) THEN 0 ELSE IMax(DyTop(x), 0)) + 2         \* reduce at the finer scale w + g: the error k * err(ln 2) stays small
+GOf(x) == (IF DyIsZero(x) THEN 0 ELSE IMax(DyTop(x), 0)) + 2
+\* Constants shared by several evaluations (one event with many sample points): pi at scale W + 2 and ln 2 at
+\* scale W, computed once; coarser scales are obtained by shifting.
+Consts(W) == [pi |-> PiFx(W + 2), ln2 |-> Ln2Fx(W), W |-> W]
+PiAt(KC, w) == IF w = KC.W THEN KC.pi ELSE FxShr(KC.pi, KC.W - w)           \* pi at scale w + 2  (w <= KC.W)
+Ln2At(KC, w) == IF w = KC.W THEN KC.ln2 ELSE FxShr(KC.ln2, KC.W - w)        \* ln 2 at scale w    (w <= KC.W)
+NoFx == Fx(ZZero, 0)
+ExpEnclK(x, w, KC) ==
+  LET g == GOf(x)                                   \* reduce at the finer scale w + g: the error k * err(ln 2) stays small
       W == w + g
       xf == FxOfDy(x, W)
-      ln2 == Ln2Fx(W)
+      ln2 == Ln2At(KC, W)
       k == ZToInt(ZDivFloor(ZAdd(ZShl(xf.v, 1), ln2.v), ZShl(ln2.v, 1)))        \* nearest integer to x / ln 2
       r == FxShr(FxSub(xf, FxMulInt(ln2, k)), g)
       y == ExpSmall(r, w)
   IN [lo |-> ZSub(y.v, ZFromInt(y.e)), hi |-> ZAdd(y.v, ZFromInt(y.e)), sh |-> k - w]
+ExpEncl(x, w) == ExpEnclK(x, w, [pi |-> NoFx, ln2 |-> Ln2Fx(w + GOf(x)), W |-> w + GOf(x)])
 
 (*************************** log *******************************************)
 \* 2 atanh(y) for |y| <= 1/2
@@ -104,15 +112,16 @@ Atanh2(y, w) ==
       tail == 2 * (ZToInt(ZShr(ZAbs(st[2].v), 0)) + st[2].e) + 2
   IN FxMulInt(Fx(st[1].v, st[1].e + tail), 2)
 \* enclosure of log(x) for a positive dyadic x
-LogEncl(x, w) ==
+LogEnclK(x, w, KC) ==
   LET top == DyTop(x)                                     \* 2^(top-1) <= x < 2^top
       t0 == FxOfDy(Dy(x.m, x.e - top), w)                 \* x / 2^top in [1/2, 1)
       big == ZCmp(ZMulSmall(t0.v, 10), ZShl(ZFromInt(7), w)) >= 0      \* t0 >= 0.7 ?
       t == IF big THEN t0 ELSE Fx(ZShl(t0.v, 1), 2 * t0.e)              \* t in [0.7, 1.4)
       n == IF big THEN top ELSE top - 1
       y == FxDiv(FxSub(t, FxInt(1, w)), FxAdd(t, FxInt(1, w)), w)
-      v == FxAdd(FxMulInt(Ln2Fx(w), n), Atanh2(y, w))
+      v == FxAdd(FxMulInt(Ln2At(KC, w), n), Atanh2(y, w))
   IN [lo |-> ZSub(v.v, ZFromInt(v.e)), hi |-> ZAdd(v.v, ZFromInt(v.e)), sh |-> -w]
+LogEncl(x, w) == LogEnclK(x, w, [pi |-> NoFx, ln2 |-> Ln2Fx(w), W |-> w])
 
 (*************************** sin, cos, atan ********************************)
 \* Taylor sums for |r| <= 0.8: <<sin r, cos r>>
@@ -130,17 +139,22 @@ SinCosSmall(r, w) ==
   IN <<Fx(st[1].v, st[1].e + tl), Fx(st[2].v, st[2].e + tl)>>
 \* sin x and cos x for a dyadic x as fixed-point values.  The argument reduction r = x - k pi/2 is done at the
 \* finer scale w + g, g = bit length of |x| + 2, so that the error k * err(pi/2) stays a few units at scale w
-SinCosFx(x, w) ==
-  LET g == (IF DyIsZero(x) THEN 0 ELSE IMax(DyTop(x), 0)) + 2
+SinCosFxK(x, w, KC) ==
+  LET g == GOf(x)
       W == w + g
       xf == FxOfDy(x, W)
-      hp == FxShr(PiFx(W + 2), 3)                              \* pi/2 at scale W (from pi at scale W+2)
+      hp == FxShr(PiAt(KC, W), 3)                               \* pi/2 at scale W (from pi at scale W+2)
       k == ZToInt(ZDivFloor(ZAdd(ZShl(xf.v, 1), hp.v), ZShl(hp.v, 1)))
       r == FxShr(FxSub(xf, FxMulInt(hp, k)), g)                 \* back at scale w
       sc == SinCosSmall(r, w)
       q == k % 4
   IN <<CASE q = 0 -> sc[1] [] q = 1 -> sc[2] [] q = 2 -> FxNeg(sc[1]) [] OTHER -> FxNeg(sc[2]),
        CASE q = 0 -> sc[2] [] q = 1 -> FxNeg(sc[1]) [] q = 2 -> FxNeg(sc[2]) [] OTHER -> sc[1]>>
+SinCosFx(x, w) == SinCosFxK(x, w, [pi |-> PiFx(w + GOf(x) + 2), ln2 |-> NoFx, W |-> w + GOf(x)])
+SinCosEnclK(x, w, KC) ==
+  LET f == SinCosFxK(x, w, KC)
+      E(t) == [lo |-> ZSub(t.v, ZFromInt(t.e)), hi |-> ZAdd(t.v, ZFromInt(t.e)), sh |-> -w]
+  IN [s |-> E(f[1]), c |-> E(f[2])]
 SinCosEncl(x, w) ==
   LET f == SinCosFx(x, w)
       E(t) == [lo |-> ZSub(t.v, ZFromInt(t.e)), hi |-> ZAdd(t.v, ZFromInt(t.e)), sh |-> -w]
@@ -189,18 +203,18 @@ EHalf(a) == [a EXCEPT !.sh = a.sh - 1]
 
 (*************************** tan, atan2, complex elementary functions ******)
 \* tan x = sin x / cos x; "none" when the cosine enclosure is not bounded away from zero
-TanEncl(x, w) ==
-  LET sc == SinCosFx(x, w)
+TanEnclK(x, w, KC) ==
+  LET sc == SinCosFxK(x, w, KC)
   IN IF ZCmp(ZAbs(sc[2].v), ZFromInt(sc[2].e + 2)) <= 0 THEN [none |-> TRUE]
      ELSE EOf(FxDiv(sc[1], sc[2], w), w)
 \* atan of a fixed-point t in [0, 1] (with its error)
-AtanFx01(t, w) ==
+AtanFx01K(t, w, KC) ==
   LET one == FxInt(1, w)
       small == ZCmp(ZMulSmall(t.v, 128), ZShl(ZFromInt(53), w)) <= 0
   IN IF small THEN AtanSmall(t, w)
-     ELSE FxAdd(FxShr(PiFx(w + 2), 4), AtanSmall(FxDiv(FxSub(t, one), FxAdd(t, one), w), w))
+     ELSE FxAdd(FxShr(PiAt(KC, w), 4), AtanSmall(FxDiv(FxSub(t, one), FxAdd(t, one), w), w))
 \* atan2(y, x) for dyadics, not both zero, off the cut (y = 0 /\ x < 0 excluded by the caller)
-Atan2Encl(y, x, w) ==
+Atan2EnclK(y, x, w, KC) ==
   LET ax == DyAbs(x)  ay == DyAbs(y)
       ylex == DyCmp(ay, ax) <= 0
       big == IF ylex THEN ax ELSE ay     small == IF ylex THEN ay ELSE ax
@@ -208,20 +222,24 @@ Atan2Encl(y, x, w) ==
       bf == FxOfDy(Dy(big.m, big.e - top), w)                  \* in [1/2, 1)
       sf == FxOfDy(Dy(small.m, small.e - top), w)              \* <= bf
       t == IF DyIsZero(small) THEN Fx(ZZero, 0) ELSE FxDiv(sf, bf, w)
-      a0 == AtanFx01(Fx(ZMax2(t.v, ZZero), t.e), w)            \* atan(small / big)
-      hp == FxShr(PiFx(w + 2), 3)                               \* pi / 2
+      a0 == AtanFx01K(Fx(ZMax2(t.v, ZZero), t.e), w, KC)        \* atan(small / big)
+      hp == FxShr(PiAt(KC, w), 3)                                \* pi / 2
       a1 == IF ylex THEN a0 ELSE FxSub(hp, a0)                  \* atan(|y| / |x|) in [0, pi/2]
       a2 == IF DySign(x) >= 0 THEN a1 ELSE FxSub(FxMulInt(hp, 2), a1)
   IN EOf(IF DySign(y) < 0 THEN FxNeg(a2) ELSE a2, w)
-CoshSinhEncl(y, w) ==
-  LET ep == ExpEncl(y, w)  em == ExpEncl(DyNeg(y), w)
+CoshSinhEnclK(y, w, KC) ==
+  LET ep == ExpEnclK(y, w, KC)  em == ExpEnclK(DyNeg(y), w, KC)
   IN [ch |-> EHalf(EAdd(ep, em)), sh |-> EHalf(ESub(ep, em))]
+\* real functions of one dyadic point with shared constants
+EnclK(f, x, w, KC) ==
+  CASE f = "exp" -> ExpEnclK(x, w, KC) [] f = "log" -> LogEnclK(x, w, KC)
+    [] f = "sin" -> SinCosEnclK(x, w, KC).s [] f = "cos" -> SinCosEnclK(x, w, KC).c [] f = "tan" -> TanEnclK(x, w, KC)
 \* complex functions at the dyadic point x + iy: <<enclosure of the real part, enclosure of the imaginary part>>
-CEncl(f, x, y, w) ==
-  CASE f = "exp" -> LET e == ExpEncl(x, w)  sc == SinCosEncl(y, w) IN <<EMul(e, sc.c), EMul(e, sc.s)>>
-    [] f = "cos" -> LET sc == SinCosEncl(x, w)  h == CoshSinhEncl(y, w) IN <<EMul(sc.c, h.ch), ENeg(EMul(sc.s, h.sh))>>
-    [] f = "sin" -> LET sc == SinCosEncl(x, w)  h == CoshSinhEncl(y, w) IN <<EMul(sc.s, h.ch), EMul(sc.c, h.sh)>>
-    [] f = "log" -> <<EHalf(LogEncl(DyAdd(DyMul(x, x), DyMul(y, y)), w)), Atan2Encl(y, x, w)>>
+CEnclK(f, x, y, w, KC) ==
+  CASE f = "exp" -> LET e == ExpEnclK(x, w, KC)  sc == SinCosEnclK(y, w, KC) IN <<EMul(e, sc.c), EMul(e, sc.s)>>
+    [] f = "cos" -> LET sc == SinCosEnclK(x, w, KC)  h == CoshSinhEnclK(y, w, KC) IN <<EMul(sc.c, h.ch), ENeg(EMul(sc.s, h.sh))>>
+    [] f = "sin" -> LET sc == SinCosEnclK(x, w, KC)  h == CoshSinhEnclK(y, w, KC) IN <<EMul(sc.s, h.ch), EMul(sc.c, h.sh)>>
+    [] f = "log" -> <<EHalf(LogEnclK(DyAdd(DyMul(x, x), DyMul(y, y)), w, KC)), Atan2EnclK(y, x, w, KC)>>
 
 (*************************** judging a result against an enclosure *********)
 \* enc = [lo, hi] * 2^sh contains the true value v.  r is the implementation's result (a finite mpf or zero).
@@ -246,7 +264,7 @@ EnclRound(r, enc, p, rnd) ==
   IN IF a # b THEN "undecided" ELSE IF r = a THEN "ok" ELSE "bad"
 Encl(f, x, w) ==
   CASE f = "exp" -> ExpEncl(x, w) [] f = "log" -> LogEncl(x, w) [] f = "atan" -> AtanEncl(x, w)
-    [] f = "sin" -> SinCosEncl(x, w).s [] f = "cos" -> SinCosEncl(x, w).c [] f = "tan" -> TanEncl(x, w)
+    [] f = "sin" -> SinCosEncl(x, w).s [] f = "cos" -> SinCosEncl(x, w).c
 \* is the true value (somewhere in enc) a member of the interval v = <<a, b>> (mpf records, infinite ends allowed)?
 \* "bad": certainly not; "ok": certainly; "undecided": the enclosure straddles an endpoint
 EnclMember(v, enc) ==
